@@ -102,6 +102,9 @@ mod types;
 mod vertical;
 pub(crate) mod visitor;
 
+#[cfg(rust_lang_rustfmt_verif)]
+pub mod verif_hooks;
+
 /// The various errors that can occur during formatting. Note that not all of
 /// these can currently be propagated to clients.
 #[derive(Error, Debug)]
